@@ -40,7 +40,50 @@ func scaleCases(tier string) []scalekit.Case {
 			out = append(out, scalekit.Case{Shape: "deep-composition", N: n, V: v})
 		}
 	}
+	// a config statement whose argument is neither true nor false (n: the argument) on every kind of
+	// node that takes one, below a parent that says false, says true or says nothing (variant)
+	for n := range notBooleans {
+		for v := 0; v < 3*len(configKinds); v++ {
+			out = append(out, scalekit.Case{Shape: "config-argument-that-says-neither", N: n, V: v})
+		}
+	}
 	return out
+}
+
+var notBooleans = []string{"TRUE", "True", "T", "t", "1", "FALSE", "False", "F", "f", "0", `""`, "yes", "no", `"true "`, `" false"`, `"fal" + "se "`, "truefalse", "falsetrue", "nil", "tru", "fals", "false0"}
+
+var configKinds = []string{"container x { %s leaf in { type string; } }", "leaf x { type string; %s }", "leaf-list x { type string; %s }", "list x { key k; %s leaf k { type string; } }", "choice x { %s leaf in { type string; } }", "anyxml x { %s }", "anydata x { %s }"}
+
+// config-argument-that-says-neither: such a statement says neither true nor false. Either it is
+// reported, or the node is read-only exactly when it would be without the statement.
+func checkNotBoolean(cs scalekit.Case) scalekit.Verdict {
+	arg, kind, parent := notBooleans[cs.N], configKinds[cs.V%len(configKinds)], []string{"config false;", "config true;", ""}[cs.V/len(configKinds)]
+	text := func(stmt string) string {
+		return `module m { yang-version 1.1; namespace "urn:m"; prefix m; container top { ` + parent + ` ` + fmt.Sprintf(kind, stmt) + ` } }`
+	}
+	ro := func(t string) (bool, []error, error) {
+		ms, errs, lerr := scalekit.Load([]dump.File{{Name: "m.yang", Text: t}}, false)
+		if lerr != nil || len(errs) > 0 {
+			return false, errs, lerr
+		}
+		x := scalekit.Down(yang.ToEntry(ms.Modules["m"]), "top", "x")
+		if x == nil {
+			return false, nil, fmt.Errorf("node x missing")
+		}
+		return x.ReadOnly(), nil, nil
+	}
+	plain, errs, lerr := ro(text(""))
+	if lerr != nil || len(errs) > 0 {
+		return scalekit.Bad("spurious-errors", "the module without the statement loads and processes", fmt.Sprint(lerr, dump.Errors(errs)))
+	}
+	got, errs, lerr := ro(text("config " + arg + ";"))
+	if lerr != nil || len(errs) > 0 {
+		return scalekit.OK() // reported
+	}
+	if got != plain {
+		return scalekit.Bad("config-argument-that-says-neither-decides", fmt.Sprintf("an error, or read-only=%v as without the statement config %s;", plain, arg), fmt.Sprintf("no error and read-only=%v", got))
+	}
+	return scalekit.OK()
 }
 
 // deep-composition: every level of the chain, down to the leaf at its end, belongs to the module
@@ -183,6 +226,9 @@ func checkScale(cs scalekit.Case) scalekit.Verdict {
 	}
 	if cs.Shape == "deep-composition" {
 		return checkDeep(cs)
+	}
+	if cs.Shape == "config-argument-that-says-neither" {
+		return checkNotBoolean(cs)
 	}
 	for _, rev := range []bool{false, true} {
 		ms, errs, lerr := scalekit.Load(scale.Wide(cs.N), rev)
